@@ -34,7 +34,7 @@ def run(ctx):
         for _k in range(2 if ctx.quick() else 30):
             cd = gen_code(rng, arch, rng.choice([37, 300, 3001, rng.randrange(16, 5000)]))
             valid.append((_lz.compress(cd, format=_lz.FORMAT_XZ, check=rng.choice([_lz.CHECK_CRC32, _lz.CHECK_CRC64, _lz.CHECK_NONE]), filters=[{'id': fid}, {'id': _lz.FILTER_LZMA2, 'dict_size': 4096}]), cd, '%s-code' % arch))
-    for nb in ([127, 128, 131] if ctx.quick() else [127, 128, 129, 300, 2000, 16383, 16384, 16400]):   # Number of Records needs 1, 2, 3 bytes
+    for nb in ([127, 128, 131] if ctx.quick() else [127, 128, 129, 300, 2000, 4000]):   # Number of Records needs 1, 2, 3 bytes
         mb, mexp, _il = xzgen.gen_many_blocks(rng, nb); valid.append((mb, mexp, 'many-blocks:%d' % nb))
     blobs, meta = [], []
     for f, e, d in valid:
